@@ -687,10 +687,18 @@ def r5_linearize_grid(ctx, rid):
         ctx.violation(rid, gs, st, "grid_search does not linearise the caller's grid with the caller's permute flag", label="grid_search linearises")
 
 
+def r6_edge_update_selects_one_edge(ctx, rid):
+    """grid_search -> adapt_circuit -> CircuitTemplate.update_var(edge_vars): the sweep value must reach exactly the addressed
+    parallel edge (same rule as C07-R4: selection by identity, not by value)."""
+    from .c07 import r4_edge_update_replaces_exactly_one_edge
+    r4_edge_update_replaces_exactly_one_edge(ctx, rid)
+
+
 RULES = [
     ("C17-R1", r1_private_copy_uncoupled, 5),
     ("C17-R2", r2_one_key_per_row, 4),
     ("C17-R3", r3_values_reach_targets, 7),
     ("C17-R4", r4_all_prefix_and_run, 6),
     ("C17-R5", r5_linearize_grid, 4),
+    ("C17-R6", r6_edge_update_selects_one_edge, 1),
 ]
